@@ -340,6 +340,8 @@ impl Parser {
     /// Status: standard
     pub(crate) fn scroll_right(&mut self, buf: &mut Buffer, layer: usize) {
         let num = if let Some(number) = self.parsed_numbers.first() { *number } else { 1 };
+        // after one shift per column of the scrolling region every cell of it is blank
+        let num = num.min(buf.get_last_editable_column().saturating_sub(buf.get_first_editable_column()).saturating_add(1).max(0));
         (0..num).for_each(|_| buf.scroll_right(layer));
     }
 
